@@ -806,6 +806,9 @@ func raceLoad(cfg *config, rep *Report) {
 	var lr Report
 	if b, err := os.ReadFile(filepath.Join(cfg.verif, "work", "C12race.report.json")); err == nil && json.Unmarshal(b, &lr) == nil {
 		rep.Dist["race_load_requests"] = lr.Evaluations
+		for _, v := range lr.Violations {
+			rep.violate(v)
+		}
 	}
 }
 
@@ -845,6 +848,7 @@ func raceSite(blk string) string {
 
 // runC12RaceLoad: (in the -race binary) concurrent random requests against the real server over TCP.
 func runC12RaceLoad(cfg *config) *Report {
+	var mu2 sync.Mutex
 	rep := newReport("C12", cfg.tier, cfg.seed)
 	r := newRng(cfg.seed + 12500)
 	pools := buildPools(r, 3)
@@ -873,6 +877,51 @@ func runC12RaceLoad(cfg *config) *Report {
 	}
 	broken()
 	time.Sleep(50 * time.Millisecond)
+	// uploads of DIFFERENT documents that overlap: each client must get its own file back (started together, eight
+	// clients, repeated; whatever the earlier broken uploads left behind in the server must not mix them up)
+	headerOf := func(b []byte) string {
+		var m map[string]json.RawMessage
+		if json.Unmarshal(b, &m) != nil {
+			return "?"
+		}
+		var h map[string]any
+		if json.Unmarshal(m["fileHeader"], &h) != nil {
+			return "?"
+		}
+		delete(h, "id")
+		out, _ := json.Marshal(h)
+		return string(out)
+	}
+	for round := 0; round < 6; round++ {
+		var wg sync.WaitGroup
+		start := make(chan struct{})
+		for w := 0; w < 8; w++ {
+			wg.Add(1)
+			go func(w int) {
+				defer wg.Done()
+				<-start
+				for k := 0; k < 4; k++ {
+					doc := pools.jsonDocs[(w+k)%len(pools.jsonDocs)]
+					resp := env.do(&apiReq{Kind: "c2", CT: "application/json", Body: doc})
+					want := headerOf(doc)
+					if resp.Dropped != "" {
+						continue
+					}
+					if resp.Status != 201 || headerOf(resp.Body) != want {
+						mu2.Lock()
+						rep.violate(Violation{Key: "C12:overlapping-uploads-mixed-up", What: fmt.Sprintf("of several clients uploading different documents to POST /v2/files at the same time, one was answered %d with a file whose header is not the one it submitted", resp.Status),
+							Replay: map[string]any{"status": resp.Status, "submitted_header": want, "answered": string(resp.Body[:min(300, len(resp.Body))]), "how": "VERIF_RACE_LOAD=1 iclh-race -prop C12: broken uploads (client disconnects mid-body), then eight clients uploading at once"}})
+						mu2.Unlock()
+					}
+				}
+			}(w)
+		}
+		close(start)
+		wg.Wait()
+		if round%2 == 1 {
+			broken()
+		}
+	}
 	dur := 4 * time.Second
 	if cfg.tier == "thorough" {
 		dur = 45 * time.Second
